@@ -74,6 +74,16 @@ pub mod arrayvec {
         }
     }
 
+    impl<T: Clone, const CAP: usize> Clone for ArrayVec<T, CAP> {
+        #[verifier::external_body]
+        fn clone(&self) -> (r: Self)
+            ensures
+                r@ == self@,
+        {
+            ArrayVec { inner: self.inner.clone() }
+        }
+    }
+
     impl<T, const CAP: usize> core::ops::Deref for ArrayVec<T, CAP> {
         type Target = [T];
 
